@@ -285,21 +285,28 @@ func (q *queryStmtParser) parseDuration(ctx grammar.IDurationLitContext) int64 {
 	if !ok {
 		return result
 	}
+	var factor int64
 	switch {
 	case unit.T_SECOND() != nil:
-		result = duration * commontimeutil.OneSecond
+		factor = commontimeutil.OneSecond
 	case unit.T_MINUTE() != nil:
-		result = duration * commontimeutil.OneMinute
+		factor = commontimeutil.OneMinute
 	case unit.T_HOUR() != nil:
-		result = duration * commontimeutil.OneHour
+		factor = commontimeutil.OneHour
 	case unit.T_DAY() != nil:
-		result = duration * commontimeutil.OneDay
+		factor = commontimeutil.OneDay
 	case unit.T_WEEK() != nil:
-		result = duration * commontimeutil.OneWeek
+		factor = commontimeutil.OneWeek
 	case unit.T_MONTH() != nil:
-		result = duration * commontimeutil.OneMonth
+		factor = commontimeutil.OneMonth
 	case unit.T_YEAR() != nil:
-		result = duration * commontimeutil.OneYear
+		factor = commontimeutil.OneYear
+	}
+	result = duration * factor
+	if factor != 0 && result/factor != duration {
+		// the product wrapped around int64
+		q.err = fmt.Errorf("duration out of range: %s", durationCtx.GetText())
+		return 0
 	}
 	return result
 }
